@@ -8,5 +8,5 @@ CONSTANTS
   MCTargets = {"newdir", "existing", "device", "rodir", "rofile", "parentfile", "isdir"}
   GroupNames = {}
 INVARIANTS Inv_C05 Inv_FaultReported Inv_NoSpurious Inv_Oracle Inv_Conservation Inv_Limit Inv_EarlySurfaces Inv_Run Inv_AsBuiltNil
-PROPERTIES Act_Final Live_Returns
+PROPERTIES Act_ErrSticky Act_WerrSticky Act_FileGrows Live_Returns
 CHECK_DEADLOCK FALSE
